@@ -9,10 +9,10 @@ import (
 	"verifharness/gen"
 )
 
-func nanValue() float64               { return math.NaN() }
-func negZero() float64                { return math.Copysign(0, -1) }
+func nanValue() float64                    { return math.NaN() }
+func negZero() float64                     { return math.Copysign(0, -1) }
 func parseFloat(s string) (float64, error) { return strconv.ParseFloat(s, 64) }
-func unquote(s string) (any, error)   { return strconv.Unquote(s) }
+func unquote(s string) (any, error)        { return strconv.Unquote(s) }
 
 func convStmts(stmts ast.Stmts) ([]*gen.Node, error) {
 	tree, c := conv.Stmts(stmts)
